@@ -249,6 +249,30 @@ def _validate_runs(res, rj, defn, events, theta, lims, runs, opts, tag):
                                         "definition": defn.describe() if tag else None})
         if not tag:
             res["sample"] = {"run": meta[0], "first_events": traces[0]["events"][:3]}
+        if opts.get("grid_alone") and not tres.invariant_violated:
+            # runs rejected before their Gridded event was reached: the returned table is judged on its own
+            again = [rej["tid"] for rej in res["rejected"] if rej.get("tid") and rej["label"] != "grid"
+                     and rej.get("definition") == (defn.describe() if tag else None)
+                     and traces[rej["tid"] - 1]["events"] and traces[rej["tid"] - 1]["events"][-1]["ev"] == "Gridded"]
+            if again:
+                path2 = os.path.join(workdir, "trace_grid.json")
+                rj.trace_file(defn, events, theta, lims, [dict(traces[tid - 1], gridonly=True) for tid in again], path2)
+                try:
+                    prog2, tres2 = validate(path2, workdir)
+                except tlc.TLCError as ex:
+                    res["machinery"] = str(ex)
+                    return res
+                res["grid_alone"] = res.get("grid_alone", 0) + len(again)
+                for k, tid in enumerate(again, start=1):
+                    tr = traces[tid - 1]
+                    reached, need = prog2.get(k, (0, len(tr["events"]) + 1))
+                    if reached < need:
+                        res["rejected"].append({"tid": tid, "label": "grid", "at": len(tr["events"]), "event": tr["events"][-1],
+                                                "prev": None, "meta": meta[tid - 1], "exact": tr["exact"],
+                                                "note": "the path of this run was rejected upstream; the returned table "
+                                                        "was judged on its own (rows, first row, counts >= 0, consecutive "
+                                                        "rows differ by V . counts)",
+                                                "definition": defn.describe() if tag else None})
     finally:
         shutil.rmtree(workdir, ignore_errors=True)
     return res
